@@ -1,6 +1,7 @@
 package main
 
 import (
+	"sort"
 	"go/types"
 	"fmt"
 	"go/constant"
@@ -63,39 +64,72 @@ func checkC19(c *Ctx) {
 	}
 	c.Fn(FuncName(read))
 	c.Fn(FuncName(rac))
-	// ---- decoder constants: comparisons of the byte returned by the one-byte reader with constants
-	sep, term := int64(-1), int64(-1)
-	for _, b := range read.Blocks {
-		for _, in := range b.Instrs {
-			cmp, ok := in.(*ssa.BinOp)
-			if !ok || cmp.Op != token.EQL {
-				continue
+	// ---- decoder constants: the constants that a byte obtained from the source is compared with (==), anywhere in the
+	// decoder (role based: the byte is the result of the module function that performs the one-byte read, or is loaded
+	// from the one-byte buffer). The terminator is the constant of the encoder's format that ends the line; after its
+	// comparison succeeds no further read may be reachable in that function (one record per call).
+	decScope := p.Reachable(rac)
+	byteReaders := map[*ssa.Function]bool{}
+	for _, f := range decScope {
+		for _, call := range calls(f) {
+			if invokeIs(call, "Read") && call.Common().Value.Type().String() == "io.Reader" {
+				byteReaders[f] = true
 			}
-			k, ok := constInt(cmp.Y)
-			if !ok {
+		}
+	}
+	fromSource := func(v ssa.Value) bool {
+		for d := 0; d < 4; d++ {
+			switch x := v.(type) {
+			case *ssa.Extract:
+				v = x.Tuple
 				continue
-			}
-			for _, u := range liveRefs(cmp) {
-				iff, ok := u.(*ssa.If)
-				if !ok {
-					continue
-				}
-				te, _ := ifEdges(iff)
-				// terminator: the true edge leads directly to a return; separator: to the delta conversion
-				isTerm := false
-				if len(te.to.Instrs) > 0 {
-					if _, ok := te.to.Instrs[len(te.to.Instrs)-1].(*ssa.Return); ok {
-						isTerm = true
+			case *ssa.Call:
+				return byteReaders[x.Common().StaticCallee()]
+			case *ssa.UnOp:
+				if x.Op == token.MUL {
+					if _, ok := x.X.(*ssa.IndexAddr); ok {
+						return true
 					}
 				}
-				if isTerm {
-					term = k
-				} else {
-					sep = k
+			}
+			break
+		}
+		return false
+	}
+	type constCmp struct {
+		k   int64
+		iff *ssa.If
+		fn  *ssa.Function
+	}
+	var cmps []constCmp
+	for _, f := range decScope {
+		if byteReaders[f] {
+			continue // the one-byte reader itself compares counts, not content
+		}
+		for _, b := range f.Blocks {
+			for _, in := range b.Instrs {
+				cmp, ok := in.(*ssa.BinOp)
+				if !ok || cmp.Op != token.EQL {
+					continue
+				}
+				k, ok := constInt(cmp.Y)
+				if !ok || !fromSource(cmp.X) {
+					continue
+				}
+				for _, u := range liveRefs(cmp) {
+					if iff, ok := u.(*ssa.If); ok {
+						cmps = append(cmps, constCmp{k, iff, f})
+					}
 				}
 			}
 		}
 	}
+	decConsts := map[int64]bool{}
+	for _, cc := range cmps {
+		decConsts[cc.k] = true
+	}
+	sep, term := int64(-1), int64(-1)
+	termReturns := true
 	// ---- encoder format
 	send := p.MethodOf(typesPtr(outT), "Send")
 	var format string
@@ -118,8 +152,38 @@ func checkC19(c *Ctx) {
 		ok := len(parts) == 4 && parts[0].verb != "" && parts[1].lit != "" && parts[2].verb != "" && parts[3].lit != ""
 		why := fmt.Sprintf("format %q is not <verb><sep><verb><term>", format)
 		if ok {
-			ok = len(parts[1].lit) == 1 && len(parts[3].lit) == 1 && int64(parts[1].lit[0]) == sep && int64(parts[3].lit[0]) == term
-			why = fmt.Sprintf("encoder uses separator %q terminator %q; decoder compares with %q and %q", parts[1].lit, parts[3].lit, string(rune(sep)), string(rune(term)))
+			ok = len(parts[1].lit) == 1 && len(parts[3].lit) == 1
+			if ok {
+				sep, term = int64(parts[1].lit[0]), int64(parts[3].lit[0])
+				ok = len(decConsts) == 2 && decConsts[sep] && decConsts[term]
+				var ks []string
+				for k := range decConsts {
+					ks = append(ks, fmt.Sprintf("%q", string(rune(k))))
+				}
+				sort.Strings(ks)
+				why = fmt.Sprintf("encoder uses separator %q terminator %q; the decoder compares source bytes with %s", parts[1].lit, parts[3].lit, strings.Join(ks, ", "))
+				// one record per call: once the terminator comparison succeeds, no further read is reachable in that function
+				for _, cc := range cmps {
+					if cc.k != term {
+						continue
+					}
+					te, _ := ifEdges(cc.iff)
+					if len(te.to.Instrs) == 0 {
+						continue
+					}
+					for _, call := range calls(cc.fn) {
+						cal := call.Common().StaticCallee()
+						isRead := (cal != nil && byteReaders[cal]) || (invokeIs(call, "Read") && call.Common().Value.Type().String() == "io.Reader")
+						if !isRead {
+							continue
+						}
+						ci := call.(ssa.Instruction)
+						if te.to.Instrs[0] == ci || canReachAvoiding(te.to.Instrs[0], ci, nil) {
+							termReturns = false
+						}
+					}
+				}
+			}
 		}
 		c.Check(ok, "C19.1", "encoder format vs decoder constants", p.Pos(fcall.Pos()), fmt.Sprintf("format %q; decoder separator %q terminator %q", format, string(rune(sep)), string(rune(term))), why)
 		// verbs and argument types
@@ -167,7 +231,7 @@ func checkC19(c *Ctx) {
 		c.Bad("C19.3", "read sites", "-", "decoder performs no read")
 	}
 	// one record per call: after the terminator branch no read is reachable -> terminator edge returns (found above)
-	c.Check(term >= 0, "C19.3", "return at the first terminator", p.Pos(read.Pos()), "the terminator comparison's true edge returns immediately", "no terminator branch that returns: the decoder may consume bytes of the next record")
+	c.Check(term >= 0 && termReturns, "C19.3", "return at the first terminator", p.Pos(read.Pos()), "once a source byte equals the terminator no further read is reachable in that function", "after the terminator has been seen the decoder can read on: it may consume bytes of the next record")
 	// ---- C19.4
 	ps := NewPanicScan(p, scope)
 	ps.Check(c, "C19.4", scope)
